@@ -118,7 +118,8 @@ def judge_grid(a, b, r0, r1, acc=None):
 DOM = [[0, 1], [10, -10], [0.13, 9.7], [-1, 3], [-2, 3], [0, 1.0000000003]]
 RNG = [[0, 1], [100, 0], [-5, 5], [-1, 640], [-2, 640], [0, 1.0000000005]]
 OPS = ([("domain", d) for d in DOM] + [("range", r) for r in RNG]
-       + [("clamp", True), ("clamp", False), ("nice", None), ("nice", 3), ("copy", None), ("rmw-range", None), ("rmw-domain", None)])
+       + [("clamp", True), ("clamp", False), ("nice", None), ("nice", 3), ("copy", None), ("deepcopy", None), ("rmw-range", None), ("rmw-domain", None),
+          ("alias-range", RNG[1]), ("alias-domain", DOM[3])])
 PROBES = (-1, 0, .5, 1, 3, 9.7, 20)
 PRE = (0, 50, -5)
 
@@ -138,6 +139,9 @@ def build(hist):
             s.nice(arg) if arg is not None else s.nice()
         elif op == "copy":
             pool.append(s.copy())
+        elif op == "deepcopy":  # a duplicate made through the standard copy protocol (option dicts holding a scale get deep-copied)
+            import copy as _copy
+            pool.append(_copy.deepcopy(s))
         elif op == "rmw-range":  # read-modify-write: take the list the getter returns, edit it, hand it back
             r = s.range()
             r.reverse()
@@ -146,6 +150,16 @@ def build(hist):
             d = s.domain()
             d.reverse()
             s.domain(d)
+        elif op == "alias-range":  # the caller goes on using the list it handed to the setter
+            r = list(arg)
+            s.range(r)
+            r.reverse()
+            r.append(7)
+        elif op == "alias-domain":
+            d = list(arg)
+            s.domain(d)
+            d.reverse()
+            d.append(7)
     return pool
 
 
@@ -158,9 +172,12 @@ def invariant(pool):
     for k, s in enumerate(pool):
         d, r = s.domain(), s.range()
         for j in (0, 1):
-            if abs(s(d[j]) - r[j]) > 1e-9 * max(1, abs(r[j])):
-                return ("C12:hist-end-points", "scale #%d reports domain %r and range %r but maps %r to %r"
-                        % (k, list(d), list(r), d[j], s(d[j])))
+            y = s.scale(d[j])  # the method form first: it must not lag behind the function form
+            if abs(y - r[j]) > 1e-9 * max(1, abs(r[j])):
+                return ("C12:hist-end-points", "scale #%d reports domain %r and range %r but scale(%r) = %r"
+                        % (k, list(d), list(r), d[j], y))
+            if s(d[j]) != y:
+                return ("C12:hist-call-forms-differ", "scale #%d: scale(%r) = %r but the call form gives %r" % (k, d[j], y, s(d[j])))
     return None
 
 
@@ -180,17 +197,17 @@ def check_history(hist):
         return bad
     i = hist[-1][0]
     # a setter sets: the scale must report exactly what it was just given
-    if hist[-1][1] == "domain" and list(after[i][0]) != [float(v) for v in hist[-1][2]]:
+    if hist[-1][1] in ("domain", "alias-domain") and list(after[i][0]) != [float(v) for v in hist[-1][2]]:
         return ("C12:hist-setter-ignored", "after domain(%r) the scale reports the domain %r (history %r)"
                 % (hist[-1][2], list(after[i][0]), hist))
-    if hist[-1][1] == "range" and list(after[i][1]) != list(hist[-1][2]):
+    if hist[-1][1] in ("range", "alias-range") and list(after[i][1]) != list(hist[-1][2]):
         return ("C12:hist-setter-ignored", "after range(%r) the scale reports the range %r (history %r)"
                 % (hist[-1][2], list(after[i][1]), hist))
     for k in range(len(before)):
         if k != i and before[k] != after[k]:
             return ("C12:hist-interference", "%s(%r) on scale #%d changed scale #%d: %r -> %r"
                     % (hist[-1][1], hist[-1][2], i, k, before[k][:2], after[k][:2]))
-    if hist[-1][1] == "copy" and after[-1] != after[i]:
+    if hist[-1][1] in ("copy", "deepcopy") and after[-1] != after[i]:
         return "C12:hist-copy-differs", "a fresh copy observes %r, its original %r" % (after[-1][:2], after[i][:2])
     return None
 
@@ -214,7 +231,7 @@ def bfs(prefix, depth, acc):
         pool = build(h)
         for i in range(len(pool)):
             for op, arg in OPS:
-                if op == "copy" and len(pool) >= 3:
+                if op in ("copy", "deepcopy") and len(pool) >= 3:
                     continue
                 nh = h + [(i, op, arg)]
                 bad = check_history(nh)
@@ -224,7 +241,7 @@ def bfs(prefix, depth, acc):
                 if len(pool) >= 2:
                     acc.counters["hist_multi_scale_transitions"] += 1
                     acc.nontriv += 1
-                if op == "nice" and any(o[1] == "copy" for o in h):
+                if op == "nice" and any(o[1] in ("copy", "deepcopy") for o in h):
                     acc.counters["hist_nice_after_copy"] += 1
                 if bad:
                     acc.violation({"hist": nh}, bad[0], bad[1], order=(len(nh), OPS.index((op, arg))))
